@@ -185,4 +185,4 @@ def check_case(case):
 
 def run(tier="quick", seed=0):
     return common.run("bounded.C05", cases(tier, seed), bound="3 candidates x <=3 score ballots x m x L x k (all five classes)",
-                      rule=RULE, budget_s=150 if tier == "quick" else 900)
+                      rule=RULE, budget_s=600 if tier == "quick" else 900)
